@@ -235,7 +235,11 @@ void Monitor::on_handler(int cmd, int kind, int fsm, const bytes &data, size_t s
                 return;
         st.handler_calls++;
         bytes &tr = fsm == FSM_EV ? ev_handlers : cmd_handlers;
-        tr += "H " + std::to_string(cmd) + " " + std::to_string(kind) + " " + std::to_string(size) + " " + std::to_string(extra) + " " + hexenc(data) + "\n";
+        {
+                // event side: the newline embedded in a TEST text may be LF or CRLF (rule 2): normalise
+                bytes nd = fsm == FSM_EV ? strip_cr_before_lf(data) : data;
+                tr += "H " + std::to_string(cmd) + " " + std::to_string(kind) + " " + std::to_string(nd.size()) + " " + std::to_string(extra) + " " + hexenc(nd) + "\n";
+        }
         std::deque<Item> &q = fsm == FSM_EV ? evq : cmdq;
         const CmdSpec &cs = plan.cmds[(size_t)cmd];
         std::string what = "handler kind " + std::to_string(kind) + " of cmd " + std::to_string(cmd) + " (" + vis(cs.name) + ") called by fsm " + std::to_string(fsm) + " with \"" +
